@@ -70,6 +70,11 @@ fn main() {
                     let at = LAST_PANIC.lock().map(|g| g.clone()).unwrap_or_default();
                     let mut r = Report::new();
                     if at.starts_with("/repo/") || at.starts_with("huginn-net") {
+                        // the counts of the aborted run are lost; what is known to have been explored is the input that panicked
+                        r.exec(1);
+                        r.outcome(&("aborted", &at));
+                        r.outcome(&"aborted");
+                        r.sample(|| serde_json::json!({"aborted_at": at}));
                         r.dev(format!("{id}/implementation-panicked-at/{at}"), "panic", || serde_json::json!({"panic_location": at, "detail": "the implementation panicked on an explored input outside a guarded call; the run was aborted"}));
                     } else {
                         r.machinery_error(format!("engine panicked at {at}"));
